@@ -17,7 +17,7 @@ if not d.endswith("-a") and os.path.exists("/tmp/used_sites.json"):  # rounds b,
           "\n\nGo for the less central parts of what the property covers: secondary functions named in the anchors, in-place (`&mut self`) twins, by-reference operand forms and trait impls for `&T`, "
           "one particular vector size or kind (Vec8..Vec64, Extent, Rgb/Rgba, Uv/Uvw - enable cargo features as needed and say so), one matrix size or layout, conversions between types, "
           "clamped vs unclamped / precise vs fast variants, deprecated aliases, degenerate-input branches, behaviour that only differs after a *sequence* of calls.\n")
-        if d.endswith("-c"):
+        if d.endswith("-c") or d.endswith("-d"):
             extra+=("\nFor this round, make A and B come from two DIFFERENT categories of this list (say which): "
               "(1) a value-dependent shortcut - a fast path, early return, epsilon/threshold guard, clamp, saturating or sign-dependent branch that is right for ordinary values and wrong for some (zero, negative, tiny, huge, equal, NaN/inf where the statement covers them); "
               "(2) a numerically different but algebraically 'equivalent' rewrite that loses accuracy or overflows/underflows only for particular magnitudes or operand relations; "
@@ -25,6 +25,11 @@ if not d.endswith("-a") and os.path.exists("/tmp/used_sites.json"):  # rounds b,
               "(4) two cooperating edits in different places, each of which looks harmless alone and which only together break the property; "
               "(5) a change in a shared private helper or macro arm that several public functions expand, visible through only some of them; "
               "(6) state/ordering: something that only differs on the second call, after an in-place mutation, or for a particular interleaving of calls on the same value.\n")
+        if d.endswith("-d"):
+            extra+=("\nThis is the fourth round: the obvious and the second-tier sites are taken.  Read the anchors of the property and the source around them for code nobody has touched yet "
+              "(list the candidate functions first, cross off the ones above, then choose).  Favour slips that need a CONJUNCTION of two unusual conditions (a particular lane AND a particular sign; "
+              "a degenerate operand AND the in-place form; one layout AND one argument order; a value next to a threshold AND a particular element type), and slips whose effect is SMALL "
+              "(an off-by-one-ulp or off-by-one-unit result, a boundary treated as open instead of closed, a result that is right except exactly at a tie).\n")
 p=[json.loads(l) for l in open('/verif/properties.jsonl') if json.loads(l)['id']==pid][0]
 open(d+'/out/BRIEF.md','w').write(f"""# Brief: seed two property-breaking changes into the `vek` crate
 
